@@ -35,4 +35,4 @@ def run(ctx):
                         "PushWait/PopWait are driven with maxWait 0 and <0 only (positive durations are wall-clock behaviour)"]
 
 def replay(ctx, rp):
-    return vlib.generic_replay(ctx, rp)
+    return vlib.replay_any(ctx, rp)
